@@ -88,16 +88,38 @@ def csnoc (c : CSeq) (s : ISeq) : CSeq := c ++ [s]
 def capp (c d : CSeq) : CSeq := c ++ d
 /-- `c[:k]` for `0 ≤ k` (python slicing with `k ≤ len c`; for `k < 0` this is `[]`) -/
 def ctake (c : CSeq) (k : ℤ) : CSeq := c.take k.toNat
-/-- `itertools.combinations(s, k)` as a list of clauses.  `List.sublistsLen` enumerates the
-    `k`-element sublists in a different ORDER than itertools (itertools is lexicographic in
-    positions; `List.sublistsLen 2 [1,2,3,4] = [[3,4],[2,4],[2,3],[1,4],[1,3],[1,2]]`, i.e. the
-    reverse on this example).  None of the schemas currently stated in specs.py depends on the
-    order: they only speak about `sat`, `cmaxabs`, `chaszero` of the whole family, which are
-    invariant under permutation of the clauses.  If a schema about `cget(combs(..), i)` or
-    `ctake(combs(..), k)` is ever added, this definition must be revisited.
+/-- the `k`-element sublists of `l` in the order of `itertools.combinations(l, k)`
+    (lexicographic in positions: first those containing the head, then those that do not) -/
+def combsLex {α : Type} : ℕ → List α → List (List α)
+  | 0, _ => [[]]
+  | _ + 1, [] => []
+  | k + 1, a :: l => (combsLex k l).map (fun r => a :: r) ++ combsLex (k + 1) l
+
+/-- `combsLex` is Mathlib's `List.sublistsLen` read backwards
+    (`List.sublistsLen 2 [1,2,3,4] = [[3,4],[2,4],[2,3],[1,4],[1,3],[1,2]]`) -/
+theorem combsLex_eq_reverse {α : Type} (k : ℕ) (l : List α) :
+    combsLex k l = (List.sublistsLen k l).reverse := by
+  induction l generalizing k with
+  | nil => cases k <;> simp [combsLex]
+  | cons a l ih =>
+    cases k with
+    | zero => simp [combsLex]
+    | succ k =>
+      rw [combsLex, List.sublistsLen_succ_cons, List.reverse_append, ← List.map_reverse, ih, ih]
+
+theorem mem_combsLex {α : Type} (k : ℕ) (l s : List α) :
+    s ∈ combsLex k l ↔ List.Sublist s l ∧ s.length = k := by
+  rw [combsLex_eq_reverse, List.mem_reverse, List.mem_sublistsLen]
+
+theorem combsLex_one {α : Type} (l : List α) : combsLex 1 l = l.map (fun a => [a]) := by
+  induction l with
+  | nil => rfl
+  | cons a l ih => rw [combsLex, ih]; simp [combsLex]
+
+/-- `itertools.combinations(s, k)` as a list of clauses, IN ITERTOOLS ORDER (`combsLex`).
     For `k < 0` python raises ValueError whereas this gives `[[]]`; the unguarded schemas
     (`combs_maxabs_le`, `combs_no_zero`) hold for that value as well. -/
-def combs (s : ISeq) (k : ℤ) : CSeq := List.sublistsLen k.toNat s
+def combs (s : ISeq) (k : ℤ) : CSeq := combsLex k.toNat s
 /-- z3 `sat`: every clause true -/
 def sat (α : Asg) (c : CSeq) : Prop := ∀ s ∈ c, ctrue α s
 /-- max |literal| over all clauses, 0 if none -/
@@ -516,7 +538,7 @@ theorem combs_maxabs_le (s : ISeq) (k : ℤ) : cmaxabs (combs s k) ≤ maxabs s 
   unfold combs
   rw [cmaxabs_le_iff _ _ (maxabs_nonneg' s)]
   intro t ht
-  rw [List.mem_sublistsLen] at ht
+  rw [mem_combsLex] at ht
   rw [maxabs_le_iff _ _ (maxabs_nonneg' s)]
   intro x hx
   exact natAbs_le_maxabs s x (ht.1.subset hx)
@@ -525,7 +547,7 @@ theorem combs_maxabs_le (s : ISeq) (k : ℤ) : cmaxabs (combs s k) ≤ maxabs s 
 theorem combs_no_zero (s : ISeq) (k : ℤ) : ¬ haszero s → ¬ chaszero (combs s k) := by
   unfold haszero chaszero combs
   rintro h ⟨t, ht, h0⟩
-  rw [List.mem_sublistsLen] at ht
+  rw [mem_combsLex] at ht
   exact h (ht.1.subset h0)
 
 /-! ## `_on_terms` : `cget` -/
@@ -702,6 +724,7 @@ theorem blast (a : Asg) (s : ISeq) (k : ℤ) :
   rintro ⟨h1, h2⟩
   have hg := blast_generic (litTrue a) s k.toNat (by omega) (by omega)
   unfold sat ctrue combs count countTrue
+  simp only [combsLex_eq_reverse, List.mem_reverse]
   rw [hg]
   omega
 
@@ -1978,10 +2001,9 @@ def flipAt : List ℤ → ℕ → List ℤ
 def iflip1 (s : ISeq) (i : ℤ) : ISeq := if 0 ≤ i then flipAt s i.toNat else s
 /-- `s` with the positions `F[0..t)` negated one after the other -/
 def iflips (s F : ISeq) (t : ℤ) : ISeq := (F.take t.toNat).foldl iflip1 s
-/-- `itertools.combinations(range(n), c)` as index tuples; no element when `c < 0` (python raises).
-    Enumeration order = that of `List.sublistsLen` (not itertools'); all schemas below hold for any
-    fixed enumeration order (the prefix schemas only use `cget`/`clen` of the same list). -/
-def idxcombs (n c : ℤ) : CSeq := if c < 0 then [] else List.sublistsLen c.toNat (idx n)
+/-- `itertools.combinations(range(n), c)` as index tuples, IN ITERTOOLS ORDER (`combsLex`);
+    no element when `c < 0` (python raises ValueError). -/
+def idxcombs (n c : ℤ) : CSeq := if c < 0 then [] else combsLex c.toNat (idx n)
 /-- the entries are pairwise distinct -/
 def distinct_idx (F : ISeq) : Prop := F.Nodup
 /-- `[iflips(s, F, c) for F in idxcombs(len s, c)[:t]]` -/
@@ -2085,7 +2107,7 @@ theorem idxcombs_mem (n k : ℤ) (F : ISeq) (h : F ∈ idxcombs n k) :
   unfold idxcombs at h
   by_cases hk : k < 0
   · rw [if_pos hk] at h; cases h
-  · rw [if_neg hk, List.mem_sublistsLen] at h
+  · rw [if_neg hk, mem_combsLex] at h
     exact ⟨by omega, h.1, h.2⟩
 
 /-- `And(0 <= t, t < clen(idxcombs(n, k))) -> distinct_idx(cget(idxcombs(n, k), t))` -/
@@ -2266,16 +2288,20 @@ theorem neqprefix_sat (a : Asg) (s : ISeq) (c t : ℤ) :
   have hcount : count a s ≠ c ↔
       (idx (ilen s)).countP (fun i => litTrue a (iget s i)) ≠ c.toNat := by
     unfold count; rw [countTrue_eq_idx]; omega
-  rw [hcount, ← hgen]
-  have hcombs : idxcombs (ilen s) c = List.sublistsLen c.toNat (idx (ilen s)) := by
+  have hgen' : (∀ T ∈ combsLex c.toNat (idx (ilen s)), ∃ i ∈ idx (ilen s),
+      (i ∈ T ∧ litTrue a (iget s i) = false) ∨ (i ∉ T ∧ litTrue a (iget s i) = true)) ↔
+      (idx (ilen s)).countP (fun i => litTrue a (iget s i)) ≠ c.toNat := by
+    simpa only [combsLex_eq_reverse, List.mem_reverse] using hgen
+  rw [hcount, ← hgen']
+  have hcombs : idxcombs (ilen s) c = combsLex c.toNat (idx (ilen s)) := by
     unfold idxcombs; rw [if_neg (by omega)]
   unfold sat neqprefix clen
   rw [Int.toNat_natCast, List.take_length, hcombs]
-  have key : ∀ T ∈ List.sublistsLen c.toNat (idx (ilen s)),
+  have key : ∀ T ∈ combsLex c.toNat (idx (ilen s)),
       (ctrue a (iflips s T c) ↔
         ∃ i ∈ idx (ilen s), (i ∈ T ∧ litTrue a (iget s i) = false) ∨ (i ∉ T ∧ litTrue a (iget s i) = true)) := by
     intro T hT
-    rw [List.mem_sublistsLen] at hT
+    rw [mem_combsLex] at hT
     have hnd : T.Nodup := (idx_nodup _).sublist hT.1
     have hfold : iflips s T c = T.foldl iflip1 s := by
       unfold iflips; rw [List.take_of_length_le (by omega)]
@@ -2922,5 +2948,50 @@ theorem dclauses_succ (w te : ℤ) (C : CSeq) (t : ℤ) : (0 ≤ t ∧ t < clen 
   simp [List.append_assoc]
 
 end Traces
+
+
+/-! # Eighth batch: `idxcombs_one`, the `iflips` step read backwards, `iflip1` twice -/
+
+theorem idxcombs_one_eq (n : ℤ) : idxcombs n 1 = (idx n).map (fun i => [i]) := by
+  unfold idxcombs
+  rw [if_neg (by omega)]
+  exact combsLex_one _
+
+/-- `And(k == 1, n >= 0) -> clen(idxcombs(n, k)) == n` -/
+theorem idxcombs_one_len (n k : ℤ) : (k = 1 ∧ n ≥ 0) → clen (idxcombs n k) = n := by
+  rintro ⟨rfl, hn⟩
+  unfold clen
+  rw [idxcombs_one_eq, List.length_map, length_idx]
+  omega
+
+/-- `And(k == 1, 0 <= t, t < n) -> And(ilen(cget(idxcombs(n, k), t)) == 1, iget(cget(idxcombs(n, k), t), 0) == t)`
+    (this one DOES depend on the enumeration order: itertools order) -/
+theorem idxcombs_one_get (n k t : ℤ) : (k = 1 ∧ 0 ≤ t ∧ t < n) →
+    (ilen (cget (idxcombs n k) t) = 1 ∧ iget (cget (idxcombs n k) t) 0 = t) := by
+  rintro ⟨rfl, h0, h1⟩
+  have hlt : t.toNat < n.toNat := by omega
+  have hget : cget (idxcombs n 1) t = [t] := by
+    unfold cget
+    rw [idxcombs_one_eq, List.getD_eq_getElem?_getD, List.getElem?_map]
+    unfold idx
+    rw [List.getElem?_map, List.getElem?_range hlt]
+    simp
+    omega
+  rw [hget]
+  exact ⟨rfl, rfl⟩
+
+/-- `And(1 <= t, t <= ilen(F)) -> iflips(s, F, t) == iflip1(iflips(s, F, t - 1), iget(F, t - 1))` -/
+theorem iflips_pred (s F : ISeq) (t : ℤ) : (1 ≤ t ∧ t ≤ ilen F) →
+    iflips s F t = iflip1 (iflips s F (t - 1)) (iget F (t - 1)) := by
+  rintro ⟨h1, h2⟩
+  have := iflips_succ s F (t - 1) ⟨by omega, by omega⟩
+  rwa [sub_add_cancel] at this
+
+/-- `And(i0 == i, 0 <= i, i < ilen(s0)) -> iflip1(iflip1(s0, i0), i) == s0`
+    (the range guard is not needed: `CnfSem.iflip1_iflip1`) -/
+theorem iflip1_iflip1_of_eq (s0 : ISeq) (i0 i : ℤ) : (i0 = i ∧ 0 ≤ i ∧ i < ilen s0) →
+    iflip1 (iflip1 s0 i0) i = s0 := by
+  rintro ⟨rfl, _, _⟩
+  exact iflip1_iflip1 s0 i0
 
 end CnfSem
